@@ -239,7 +239,7 @@ func (w *cWorld) serialTuples(base, dir string) (tuples []string, dumps []*dump.
 func C18(tier string) int {
 	rep := report.New("C18", tier, "model_checking")
 	thorough := tier != "quick"
-	rep.Assume("bbolt's API calls are atomic (its internal locks are not scheduling points); the cooperative scheduler interleaves at DbImpl.reloadLock operations, at pooled lexer/parser Get/Put and at harness yield points placed between operations and inside scans")
+	rep.Assume("the cooperative scheduler interleaves at DbImpl.reloadLock operations, at bbolt's writer, meta and mmap locks, at pooled lexer/parser Get/Put and at harness yield points placed between operations and inside scans; between those points bbolt's calls are atomic")
 	rep.Assume("a cooperative scheduler cannot observe unsynchronised accesses: the 'no data races' clause is decided by a separate free-running -race build of the same bodies (every unordered pair of bodies), reported under race_*")
 	bound, readers := 2, 1
 	if thorough {
